@@ -148,7 +148,8 @@ Definition judge_step (dt : dtype) (sh : list Z) (fill : Z) (prev : jstate) (s :
                end in
       (* the Spec: NumPy's conversion, then NumPy's assignment; None = NumPy raises *)
       let sp := match sc with
-                | Ok (vsh, vflat) => np_setitem sh (abs fill prev) k (arr_of vsh vflat)
+                | Ok v0 => let v' := np_value dt sh k v0 in
+                           np_setitem sh (abs fill prev) k (arr_of (fst v') (snd v'))
                 | Raise _ => None
                 end in
       let v := match sc with Ok (vsh, vflat) => arr_of vsh vflat | Raise _ => arr_of [] [0] end in
@@ -231,8 +232,8 @@ Definition spec_step (dt : dtype) (sh : list Z) (a : idx -> Z) (s : jstep) : boo
   match op with
   | JSet k raw =>
     match np_cast dt (key_adv k) raw with
-    | Some (Ok (vsh, vflat)) =>
-      match np_setitem sh a k (arr_of vsh vflat), npout with
+    | Some (Ok v0) =>
+      match (let v' := np_value dt sh k v0 in np_setitem sh a k (arr_of (fst v') (snd v'))), npout with
       | Some a', JOk => (true, materialise sh a')
       | None, JExc _ => (true, a)
       | _, _ => (false, a)
